@@ -28,6 +28,16 @@ def cells(tier):
             sc = scen(pool(size), [[M("M", 3, 2)], [A("B", 1)]], outcomes=["ret"],
                       ecb="plain", ccb="plain", inline={"actors": [1], "at": at + ["iter"]})
             out.append(cell(f"inline s{size} M3/2 +apply@{'/'.join(at)}/iter", sc, MON))
+    for size in [1, 2]:
+        # a worker cancels its own group / itself from its own code and then finishes without suspending again
+        for at in (["w_resume"], ["w_start"]):
+            sc = scen(pool(size), [[A("A", 2)], [A("B", 2)], [cgroup("A")]], outcomes=["ret"], ecb="plain", ccb="plain",
+                      inline={"actors": [2], "at": at})
+            out.append(cell(f"inline s{size} A2|B2 cgroupA@{at[0]} (self-cancel)", sc, MON))
+        sc = scen(pool(size), [[A("A", 3)], [FLUSH], [["cancel_op", 1]], [A("B", 1)]], outcomes=["ret"], ecb="slow", ccb="plain", slow_ids=[0])
+        out.append(cell(f"s{size} A3 flush flush-caller-cancelled B1 slowecb0", sc, MON))
+        sc = scen(pool(size), [[A("A", 2, worker="instant")], [cancel(rid("A", 0))], [A("B", 2)]], outcomes=["ret"], ecb="slow", ccb="plain", slow_ids=[0, 1])
+        out.append(cell(f"s{size} A2 instant cancel0 B2 slowecb", sc, MON))
     # SimpleTaskPool
     for size in [0, 1, 2]:
         sc = scen(pool(size, "SimpleTaskPool", ecb="plain", ccb="plain"), [[S("S", 2)], [S("T", 2)], [["stop", 1]]],
